@@ -588,6 +588,18 @@ class Engine:
             return z3.If(big, z3.BitVecVal(0, w), z3.LShR(X, Y))
         X = self.bv(x, w); Y = self.bv(y, w)
         if tok in ('/', '%'):
+            if isinstance(y, int) and not s and y > 0:
+                # unsigned division by a constant: definitional expansion x = q*c + r, r < c (a multiplication by a
+                # constant instead of a division circuit; measured: the latter does not finish in the bit-blaster)
+                if y == 1: return X if tok == '/' else 0
+                key = ('udiv', X.get_id(), y)
+                qr = self.P.g.setdefault('udivs', {}).get(key)
+                if qr is None:
+                    k = self.P.g['udivcnt'] = self.P.g.get('udivcnt', 0) + 1
+                    q = z3.BitVec('udq%d' % k, w); r = z3.BitVec('udr%d' % k, w)
+                    self.P.solver.add(z3.ULE(q, mask // y), z3.ULT(r, y), X == q * y + r, z3.ULE(r, X))
+                    qr = self.P.g['udivs'][key] = (q, r, X)
+                return qr[0] if tok == '/' else qr[1]
             if self.branch(Y == 0): raise GoPanic('integer divide by zero')
             if tok == '/': return (X / Y) if s else z3.UDiv(X, Y)
             return z3.SRem(X, Y) if s else z3.URem(X, Y)
@@ -788,6 +800,7 @@ class Engine:
                 h = self.stats['known_hits'].setdefault(k['id'], dict(count=0, script=None))
                 h['count'] += 1
                 if h['script'] is None: h['script'] = self.script(m)
+                return True
         return False
 
     def script(self, m):
